@@ -392,6 +392,8 @@ theorem handleC_outcome (c0 : RQJ.Config) (s : SysC N) (i : Fin N) (inp : InputC
     · rw [if_neg h]; exact OutcomeC.stay' rfl
   | applyTo k => exact outcomeC_applyFold c0 i _ s
   | beat => exact OutcomeC.stay' rfl
+  | snapStatus src failed => exact OutcomeC.stay' rfl
+  | unreachable src => exact OutcomeC.stay' rfl
   | restart a =>
     exact outcomeC_of_step (StepC.restart s i a hen) (by simp [handleC, cRestart, SysC.put]) (fun _ h => h) (fun _ h => by cases h)
   | selfAck =>
